@@ -1,6 +1,9 @@
 (** C02 — no holder commitment is both signed for broadcast and revoked.
     Statements only; proofs are in Proofs/EnforcementProofs.v. *)
 From VLS Require Import Base.U64 Model.Enforcement Proofs.EnforcementProofs Props.C01.
+From Coq Require String.
+From VLS Require Gen.EnforcementGen Gen.EnforcementRulesGen Proofs.EnforcementGenProofs
+  Proofs.EnforcementRulesGenProofs Proofs.RustFacts.
 
 (** Over every history (all request kinds, restarts anywhere, both build profiles): a number
     whose secret was disclosed is strictly below every number for which a holder signature
@@ -56,3 +59,26 @@ Example C02_old_revoke_refuted :
   | Stub => False
   end.
 Proof. vm_compute. split; reflexivity. Qed.
+
+(** The guard in front of a holder signature is the one in the source: Gen/EnforcementRulesGen.v holds the
+    statement-by-statement translation of Validator::get_current_holder_commitment_info (provided
+    method of the trait in policy/validator.rs, not overridden by the validators), which
+    sign_holder_commitment_tx_phase2 asks for the content it signs.  It is exactly the head of
+    [do_sign_holder]: [n + 1] (abort on overflow in a debug build), refusal with policy-other unless
+    [n + 1 = next_h e] (or the filter downgrades that tag), a panic when there is no current holder
+    commitment, otherwise the current content - for every state, number, filter and both profiles. *)
+Theorem C02_holder_sign_guard_is_source :
+  forall (prof : profile) (swarn : String.string -> bool) (fr : EnforcementGenProofs.frame) (e : estate) (n : N),
+    EnforcementRulesGen.gen_get_current_holder_commitment_info prof swarn (EnforcementGenProofs.to_res fr e) n =
+    match add_p prof n 1 with
+    | Trap => Trap
+    | Val n1 =>
+        if negb (n1 =? next_h e) && perr (EnforcementRulesGenProofs.etag_filter swarn) TOther
+        then Val (Rust.ErrR (EnforcementRulesGenProofs.etag_name TOther))
+        else match cur_h e with
+             | None => Trap
+             | Some c => Val (Rust.OkR c)
+             end
+    end.
+Proof. exact EnforcementRulesGenProofs.gen_holder_sign_guard_is_model. Qed.
+Print Assumptions C02_holder_sign_guard_is_source.
